@@ -342,7 +342,9 @@ func (t *Task) runWithLocking() {
 func (t *Task) executeWithLocking() {
 	// start for module
 	// hint: only queueWg global var is important for scheduling, others can be set here
+	verifEvent("pre:inc:t", t.module.Name)
 	atomic.AddInt32(t.module.taskCnt, 1)
+	verifEvent("post", t.module.Name)
 
 	defer func() {
 		// recover from panic
@@ -354,7 +356,9 @@ func (t *Task) executeWithLocking() {
 		}
 
 		// finish for module
+		verifEvent("pre:dec:t", t.module.Name)
 		atomic.AddInt32(t.module.taskCnt, -1)
+		verifEvent("post", t.module.Name)
 		t.module.checkIfStopComplete()
 
 		t.lock.Lock()
